@@ -8,6 +8,7 @@ CONSTANTS
   CReplyKinds = {"ok", "407", "403", "202", "204", "299", "500", "301", "none"}
   HostForms = {"name", "nameport", "v4", "v4port", "v6", "v6port"}
   WithHist = TRUE
+  HostOvs = {"none", "same", "other"}
 CONSTRAINT Emit
 INVARIANTS InvRefines InvConnOnlyIfProven InvFailureCloses InvSuccessOpenNoDeadline InvProxyOnlyPath InvConnectOnce InvNon200Aborts InvWssInsideVerifiedTLS InvFirstHopHook
 CHECK_DEADLOCK FALSE
